@@ -137,14 +137,44 @@ def hpp_struct(ctx, L):
     gs = ws(unparse(g.node))
     L.check(inn('main, parts = model.partition(struct.members)', gs), 'C08.parts', 'translate_struct|partition', g.site(),
             'the struct is split by model.partition (after each dynamic field)', '')
-    L.check(inn('return STRUCT_DEF_TEMPLATE.format(align=struct.alignment, name=struct.name, blocks=blocks)', gs), 'C08.parts',
-            'translate_struct|struct-align', g.site(), 'the struct is declared with its wire alignment', '')
-    gp = m.func('_HppDefinitionsTranslator.translate_struct.gen_part')
-    ps = ws(unparse(gp.node))
-    L.check('align=part[0].alignment' in ps, 'C08.parts', 'gen_part|align', gp.site(),
-            'a part is aligned like its first member (whose alignment the model bumps to the block maximum)', ps)
-    L.check(inn('[gen_part(index, part, padder) for index, part in enumerate(parts)]', gs) and inn('index=index + 2', ps), 'C08.part-numbering',
-            'hpp|gen_part', gp.site(), 'parts are numbered from 2 in declaration order (list index + 2)', ps)
+    TS = ['self', 'struct']
+
+    def fmt_calls(tmpl):
+        return [c for c in g.walk(into_nested=True) if isinstance(c, ast.Call) and ws(unparse(c.func)) == tmpl + '.format']
+    sd = fmt_calls('STRUCT_DEF_TEMPLATE')
+    kw = dict((k.arg, k.value) for k in sd[0].keywords) if len(sd) == 1 else {}
+    L.check(len(sd) == 1 and 'align' in kw and P.sem_is(g, kw['align'], 'struct.alignment', TS) and P.sem_is(g, kw['name'], 'struct.name', TS)
+            and isinstance(m.parent(sd[0]), ast.Return), 'C08.parts',
+            'translate_struct|struct-align', g.site(), 'the struct is declared with its wire alignment (and the text is what the translator returns)', '')
+    # parts: one STRUCT_DEF_PART_TEMPLATE per element of `parts`, numbered from 2 in order, aligned like its first member
+    pd = fmt_calls('STRUCT_DEF_PART_TEMPLATE')
+    ok_align = ok_num = False
+    psrc = ''
+    if len(pd) == 1:
+        psrc = ws(unparse(pd[0]))
+        kw = dict((k.arg, k.value) for k in pd[0].keywords)
+        # the comprehension / loop that enumerates the parts
+        node = pd[0]
+        gen = None
+        while node is not None and node is not g.node:
+            node = m.parent(node)
+            if isinstance(node, (ast.ListComp, ast.GeneratorExp)) and len(node.generators) == 1:
+                gen = node.generators[0]
+                break
+            if isinstance(node, ast.For):
+                gen = node
+                break
+        if gen is not None and isinstance(gen.target, ast.Tuple) and len(gen.target.elts) == 2 and all(isinstance(e, ast.Name) for e in gen.target.elts):
+            idx, part = gen.target.elts[0].id, gen.target.elts[1].id
+            it = ws(unparse(gen.iter))
+            start = 0 if it == 'enumerate(parts)' else 2 if it in ('enumerate(parts, 2)', 'enumerate(parts, start=2)') else None
+            if start is not None and 'index' in kw and 'align' in kw:
+                ok_num = ws(unparse(kw['index'])) == ('%s + 2' % idx if start == 0 else idx)
+                ok_align = ws(unparse(kw['align'])) == '%s[0].alignment' % part
+    L.check(ok_align, 'C08.parts', 'gen_part|align', g.site(pd[0] if pd else None),
+            'a part is aligned like its first member (whose alignment the model bumps to the block maximum)', psrc)
+    L.check(ok_num, 'C08.part-numbering', 'hpp|gen_part', g.site(pd[0] if pd else None),
+            'parts are numbered from 2 in declaration order (position in `parts` + 2)', psrc)
     for name, tmpl, pieces in (
             ('STRUCT_DEF_TEMPLATE', None, ['PROPHY_STRUCT({align}) {name}', '{blocks}}};']),
             ('STRUCT_DEF_PART_TEMPLATE', None, ['PROPHY_STRUCT({align}) part{index}', '{block}}} _{index};']),
